@@ -347,6 +347,19 @@ impl Array8 {
     }
 }
 
+#[cfg(feature = "verif-hooks")]
+impl Array8 {
+    pub(super) fn verif_fill_state(&self, st: &mut crate::verif::HllState) {
+        st.registers = self.values().to_vec();
+        st.cur_min = 0;
+        st.num_at_cur_min = self.num_zeros;
+        st.hip_accum = self.estimator.hip_accum();
+        st.kxq0 = self.estimator.kxq0();
+        st.kxq1 = self.estimator.kxq1();
+        st.out_of_order = self.estimator.is_out_of_order();
+    }
+}
+
 #[cfg(test)]
 mod tests {
     use super::*;
